@@ -1254,7 +1254,7 @@ fn lookup_strings(script: &[String], rng: &mut Rng) -> Vec<String> {
         }
     }
     for x in ["", "!", "!A", "!A0", "!A1", "!A2", "!R0", "!S0", "!K0", "!D0", "!T0", "!a0", "!\u{c9}0", "!\u{c9}x", "!A00", "!A-1", "!A+1", "!A 1", "!A1 ",
-              "!A99999999999999999999999", "!A18446744073709551616", "!A1x", "a0 ", " a0", "A0", "!\u{ff21}0", "!A\u{663}", "!!A0", "\u{1F600}", "!\u{1F600}1", "!K1", "!D1", "!S1", "!R1"] {
+              "!A99999999999999999999999", "!A18446744073709551616", "!A4294967296", "!R4294967296", "!S4294967296", "!A4294967297", "!R8589934592", "!A1x", "a0 ", " a0", "A0", "!\u{ff21}0", "!A\u{663}", "!!A0", "\u{1F600}", "!\u{1F600}1", "!K1", "!D1", "!S1", "!R1"] {
         v.insert(x.to_string());
     }
     for _ in 0..4 {
@@ -1286,6 +1286,7 @@ fn run_ids(rep: &mut Report, script: &[String], with_reindex: bool, rng: &mut Rn
         }
     };
     let describe = |store: &AnnotationStore, kind: &str, h: usize| -> Option<String> {
+        if h > u32::MAX as usize { return None; } // (no item has such a handle; the handle types would truncate the number)
         match kind {
             "ann" => store.annotation(AnnotationHandle::new(h)).map(|a| format!("{:?}|{}", a.id(), show_target_ids(store, a.as_ref()))),
             "res" => store.resource(TextResourceHandle::new(h)).map(|a| format!("{:?}|{}", a.id(), a.textlen())),
